@@ -99,6 +99,24 @@ CtlOther ==
                   SIf(<<EBin("==", IV, Num(1))>>, <<<<SBrk>>>>, <<>>), SAsg(Acc, EBin("+", Acc, Num(10)))>>)>>),
         P1(<<SInfer("acc", Num(0)), SInfer("w", Num(0)),
              SWhile(EBool(TRUE), <<SAsg(EVar("w", T_num), EBin("+", EVar("w", T_num), Num(1))), SIf(<<EBin(">", EVar("w", T_num), Num(3))>>, <<<<SBrk>>>>, <<>>), SAsg(Acc, EBin("+", Acc, EVar("w", T_num)))>>)>>),
+        \* an outer break textually BEFORE a nested loop that also breaks (for in for, for in while)
+        P1(<<SInfer("acc", Num(0)),
+             SFor("i", "num", <<Num(4)>>,
+                <<SIf(<<EBin("==", IV, Num(2))>>, <<<<SBrk>>>>, <<>>),
+                  SFor("j", "num", <<Num(3)>>, <<SIf(<<EBin("==", EVar("j", T_num), Num(1))>>, <<<<SBrk>>>>, <<>>), SAsg(Acc, EBin("+", Acc, Num(1)))>>),
+                  SAsg(Acc, EBin("+", Acc, Num(10)))>>),
+             SInfer("done", EBool(TRUE))>>),
+        P1(<<SInfer("acc", Num(0)), SInfer("w", Num(0)),
+             SWhile(EBool(TRUE),
+                <<SAsg(EVar("w", T_num), EBin("+", EVar("w", T_num), Num(1))), SIf(<<EBin(">", EVar("w", T_num), Num(2))>>, <<<<SBrk>>>>, <<>>),
+                  SFor("e", "arr", <<EArr(<<Num(5), Num(6), Num(7)>>)>>, <<SIf(<<EBin("==", EVar("e", T_num), Num(6))>>, <<<<SBrk>>>>, <<>>), SAsg(Acc, EBin("+", Acc, EVar("e", T_num)))>>),
+                  SAsg(Acc, EBin("+", Acc, Num(100)))>>),
+             SInfer("done", EBool(TRUE))>>),
+        \* concatenation gives fresh arrays: results never alias their operands or each other
+        P1(<<SInfer("a", EArr(<<Num(1), Num(2), Num(3), Num(4)>>)), SInfer("b", EBin("+", EVar("a", TArr(T_num)), EArr(<<Num(5)>>))),
+             SInfer("c", EBin("+", EVar("b", TArr(T_num)), EArr(<<Num(6)>>))), SInfer("d", EBin("+", EVar("b", TArr(T_num)), EArr(<<Num(7)>>))),
+             SInfer("e", EBin("+", EVar("a", TArr(T_num)), EArr(<<>>))), SAsg(EIdx(EVar("a", TArr(T_num)), Num(0)), Num(100)),
+             SAsg(EIdx(EVar("c", TArr(T_num)), Num(1)), Num(200)), SInfer("f", EBin("+", EVar("c", TArr(T_num)), EVar("c", TArr(T_num))))>>),
         \* block-local variables in nested blocks, shadowing
         P1(<<SInfer("acc", Num(0)), SInfer("x", Num(1)),
              SIf(<<EBool(TRUE)>>, <<<<SInfer("t", Num(5)), SInfer("x", Num(2)), SIf(<<EBool(TRUE)>>, <<<<SInfer("u", Num(7)), SAsg(Acc, EBin("+", EBin("+", EVar("t", T_num), EVar("u", T_num)), EVar("x", T_num)))>>>>, <<>>)>>>>, <<>>),
